@@ -18,6 +18,7 @@ func init() {
 	register("C15", func(c *core.Ctx, tier string) {
 		c15Panics(c)
 		c15IndexSafety(c)
+		wtPeekValidity(c, "C15.2b")
 		c15NegativeLengths(c)
 		wtClampAndSkip(c, "C15.4")
 		wtReadLimit(c, "C15.5")
@@ -640,4 +641,68 @@ func c15Stale(c *core.Ctx) {
 		}
 	}
 	c.Need(R, "uses of c.br in messageReader.Read", n, 1)
+}
+
+// wtPeekValidity — C15.2b / C13.3b / C14.2c / C02.9: the slice returned by
+// c.read(n) is a bufio Peek window, valid only until the next read on the
+// connection's buffer; every use of it must precede any later buffer read.
+func wtPeekValidity(c *core.Ctx, R string) {
+	c.Rule(R, "peek-window validity (typestate): the header bytes returned by c.read(n) alias bufio's internal buffer and are invalidated by the next read/discard on it; no use of such a slice (index, BigEndian.UintNN) may be reachable after a later c.read / io.CopyN(…, br, …) / br method call — a stale window yields the wrong kind bit or length when the stream is fragmented inside a frame header")
+	adv := c.Fn(R, wtAdvance)
+	if adv == nil {
+		return
+	}
+	info := adv.Info()
+	g := adv.Graph()
+	reads := adv.CallsTo(wtRead)
+	var advancing []*core.Call
+	for _, cl := range adv.Calls() {
+		if cl.Key == wtRead {
+			advancing = append(advancing, cl)
+			continue
+		}
+		if cl.Recv != nil && fieldOf(info, cl.Recv) == "Conn.br" {
+			advancing = append(advancing, cl)
+			continue
+		}
+		for _, a := range cl.Expr.Args {
+			if fieldOf(info, a) == "Conn.br" {
+				advancing = append(advancing, cl)
+			}
+		}
+	}
+	n := 0
+	for _, rd := range reads {
+		sz, _ := core.ConstInt(info, rd.Arg(0))
+		ast.Inspect(adv.Body, func(nd ast.Node) bool {
+			var use ast.Expr
+			switch x := nd.(type) {
+			case *ast.IndexExpr:
+				if tupleOf(adv, x.X, rd.Expr, 0) {
+					use = x
+				}
+			case *ast.CallExpr:
+				if len(x.Args) == 1 && tupleOf(adv, x.Args[0], rd.Expr, 0) {
+					use = x
+				}
+			}
+			if use == nil {
+				return true
+			}
+			n++
+			loc := g.LocOf(use)
+			stale := ""
+			for _, x := range advancing {
+				if x == rd {
+					continue
+				}
+				if g.CanFollow(rd.Loc, x.Loc) && g.CanFollow(x.Loc, loc) {
+					stale = keyf("%s at %s", x.Name, c.P.PosStr(x.Pos()))
+				}
+			}
+			c.Check(R, keyf("%s/read(%d)-window-use#%d", wtAdvance, sz, n), use.Pos(), stale == "", keyf("no later buffer read can precede this use (%s)", stale))
+			return true
+		})
+	}
+	c.Need(R, "uses of peeked header bytes", n, 4)
 }
